@@ -53,6 +53,11 @@ type ctx struct {
 	cfgL string // trie.VerifyProof (only zeroRoot matters)
 	// number of calls made although they are predicted not to return
 	hangsRun int32
+	// legacy range proofs: per kind of false claim [accepted, total]
+	legacyMu    sync.Mutex
+	legacyFalse map[string][2]int
+	// drivers for synchronous questions (r2need)
+	syncDrv chan *lib.Driver
 }
 
 func (c *ctx) modelLine(verifier, root, key string, p Proof, hash string) string {
@@ -181,7 +186,7 @@ func main() {
 	f := lib.ParseFlags()
 	res := lib.NewResult("a case = (trie implementation, hash, height, key/value set, queried key, honest proof or one " +
 		"corruption of it); non-trivial = distinct case on a non-empty trie")
-	c := &ctx{f: f, res: res}
+	c := &ctx{f: f, res: res, legacyFalse: map[string][2]int{}}
 	if f.Driver == "" {
 		res.Fatalf("no --driver given")
 		lib.Finish(f, res)
@@ -204,6 +209,15 @@ func main() {
 		res.Fatalf("watchdog: the harness did not finish within its own time limit")
 		lib.Finish(f, res)
 	}()
+	c.syncDrv = make(chan *lib.Driver, 16)
+	for i := 0; i < 16; i++ {
+		d, err := lib.StartDriver(f.Driver)
+		if err != nil {
+			res.Fatalf("the Lean driver does not start: %v", err)
+			d = nil
+		}
+		c.syncDrv <- d
+	}
 	r := lib.NewRNG(f.Seed)
 	workers := runtime.NumCPU()
 	if workers > 16 {
@@ -216,7 +230,7 @@ func main() {
 		go c.runBatches(ch, &wg)
 	}
 	var sections sync.WaitGroup
-	sections.Add(6)
+	sections.Add(7)
 	t0 := time.Now()
 	timing := map[string]float64{}
 	var tmu sync.Mutex
@@ -231,11 +245,13 @@ func main() {
 	go timed("rpc_section_done_s", func() { c.rpcSection(r.Fork(2), ch) })
 	go timed("range_section_done_s", func() { c.rangeSection(r.Fork(3), ch) })
 	go timed("range_small_section_done_s", func() { c.rangeSmallSection(r.Fork(5), ch, c.probeRangeCfg()) })
+	go timed("rpc_race_section_done_s", func() { c.rpcRaceSection(r.Fork(7)) })
 	go timed("special_section_done_s", func() { c.specialSection() })
 	go timed("weird_section_done_s", func() { c.weirdSection(r.Fork(4), ch) })
 	sections.Wait()
 	close(ch)
 	wg.Wait()
+	c.legacyFractionCheck()
 	timing["all_answers_judged_s"] = time.Since(t0).Seconds()
 	res.SetExtra("timing", timing)
 	lib.Finish(f, res)
